@@ -149,6 +149,19 @@ class CachedGuardStream(Stream):
                 out.append({'checker': 'CRules', 'backend': 'memory', 'rxtable': [], 'inquiries': [qa, qb],
                             'classes': [0, 1], 'cap': cap, 'custom': False, 'ops': [['add', pol]] + [['ask', k] for k in order],
                             'drop_handle': False, 'reuse': False})
+        # two inquiries of different content whose __hash__ values are EQUAL (all 64 bits; the hash is taken over a tuple
+        # of code points, so it does not depend on PYTHONHASHSEED): in the cache's dictionary they meet in one bucket and
+        # only __eq__ keeps them apart.  (The pair was found for a seeded change by a 2^32 distinguished-point search.)
+        ca = {'resource': 'report', 'action': 'get', 'subject': 'tok_rFnNeZUF3lD', 'context': None}
+        cb = dict(ca, subject='tok_a55a2U8BNZN')
+        for allowed in ('tok_rFnNeZUF3lD', 'tok_a55a2U8BNZN'):
+            cpol = {'uid': 'u0', 'effect': 'allow', 'subjects': [['s', allowed]], 'resources': [['s', 'report']],
+                    'actions': [['s', 'get']], 'context': [], 'description': None, 'tags': ['<', '>']}
+            for cap in (None, 2, 256):
+                for order in ([0, 1], [1, 0], [0, 1, 0, 1], [1, 0, 1, 0]):
+                    out.append({'checker': 'CExact', 'backend': 'memory', 'rxtable': [], 'inquiries': [ca, cb],
+                                'classes': [0, 1], 'cap': cap, 'custom': False,
+                                'ops': [['add', cpol]] + [['ask', k] for k in order], 'drop_handle': False, 'reuse': False})
         return out
 
     def generate(self, rng, tier):
